@@ -959,7 +959,8 @@ Proof.
     destruct (register h c cn b KClient u) as [h1 o1] eqn:Hr. cbn [fst]. rewrite (fst_eq _ _ _ Hr).
     now apply ri_register with cn0.
   - destruct (v2_check (h_nb h) b t); [now apply ri_register with cn0|apply Hexp; [apply srel_refl|reflexivity]].
-  - destruct (throttled h (c_addr cn) ACT_INTERNAL); [apply Hexp; [apply srel_refl|reflexivity]|].
+  - destruct (N.eqb tok 4); [apply Hexp; [apply srel_refl|reflexivity]|].
+    destruct (throttled h (c_addr cn) ACT_INTERNAL); [apply Hexp; [apply srel_refl|reflexivity]|].
     destruct (negb (N.eqb tok 0)); [apply Hexp; [srel_ns|reflexivity]|].
     destruct (h_nb h <=? b); [apply Hexp; [srel_ns|reflexivity]|]. now apply ri_register with cn0.
   - destruct (throttled h (c_addr cn) ACT_RESUME); [exact I|].
